@@ -5,8 +5,8 @@
    come from the tables; apply_op D (R,t) k = R k + t*(D/12); red D = componentwise mod D;
    img D g off x = red (g (x + off) - off)   [what expandPosition computes for sgoffset = off]. *)
 From Coq Require Import ZArith List Bool Permutation.
-From DS Require Import Base.ZMat Base.SGDefs Model.GroupCheck Model.C02_Orbit Model.C02_Eps Model.C02_Gen Gen.SGTables.
-From DS Require Import Proofs.C02_Action Proofs.C02_Expand Proofs.C02_OrbitStab Proofs.C02_EpsSound Proofs.C02_NearSpecial Proofs.C02_GenSound Proofs.C02_GenCheck Proofs.C02_Metric Proofs.C02_All.
+From DS Require Import Base.ZMat Base.SGDefs Model.GroupCheck Model.C02_Orbit Model.C02_Eps Model.C02_Gen Model.C02_EpsTol Gen.SGTables.
+From DS Require Import Proofs.C02_Action Proofs.C02_Expand Proofs.C02_OrbitStab Proofs.C02_EpsSound Proofs.C02_NearSpecial Proofs.C02_GenSound Proofs.C02_GenCheck Proofs.C02_Metric Proofs.C02_EpsTol Proofs.C02_All.
 Open Scope Z_scope.
 
 (* For ANY operation list that is a group modulo lattice translations (the C03 predicate), any modulus D > 0
@@ -197,3 +197,44 @@ Theorem C02_near_from_metric : forall D G off x x0 tau M, 0 < D -> (forall o, In
   within_tol D G off x x0 /\ between_far D G off x x0.
 Proof. exact near_from_metric. Qed.
 Print Assumptions C02_near_from_metric.
+
+(* ---- the `eps` ARGUMENT (Model/C02_EpsTol.v) ----
+   expandPosition(spacegroup, xyz, sgoffset, eps) works with TWO tolerances: the caller's eps (None -> 1e-5) in the
+   neighbour test equalPositions, and the bin width (eps + 1.0) - 1.0 = rint(eps 2^52)/2^52 of _Position2Tuple in the
+   bucket test, with the exact mode (tuple = the coordinates themselves) when that width is 0.
+   `tol_of eps` computes both from the exact rational value of the double passed as eps. *)
+
+(* For ANY well-formed pair of tolerances and any operation list: a site whose distinct images are farther apart than
+   BOTH the caller's eps AND the bin width (separated_t refers to both: far_t) is expanded exactly. *)
+Theorem C02_eps_any_tolerance : forall T, tol_wf T -> forall D G off x, 0 < D -> separated_t T D G off x ->
+  expand_eps_t T D G off x = expand_exact D G off x.
+Proof. exact expand_eps_t_exact. Qed.
+Print Assumptions C02_eps_any_tolerance.
+
+(* eps = 0 is the exact mode: EVERY site (no separation hypothesis) is expanded exactly - images that differ at all
+   are reported as distinct positions *)
+Theorem C02_eps_zero_is_exact : forall D G off x, 0 < D ->
+  expand_eps_t (tol_of (Some (0, 1))) D G off x = expand_exact D G off x.
+Proof. intros D G off x HD. apply expand_eps_exact_mode; [exact tol_zero_exact | exact HD]. Qed.
+Print Assumptions C02_eps_zero_is_exact.
+
+(* eps = None is the model of the previous theorems; their bound 2e-5 exceeds both default tolerances *)
+Theorem C02_eps_default_instance :
+  tol_of None = default_tol /\
+  (forall D G off x, expand_eps_t default_tol D G off x = expand_eps D G off x) /\
+  (forall D G off x, generator_site_t default_tol D G off x = generator_site D G off x) /\
+  (forall D p q, 0 < D -> far D p q -> far_t default_tol D p q).
+Proof.
+  split; [exact tol_of_default|]. split; [exact expand_eps_t_default|]. split; [exact generator_site_t_default | exact far_default].
+Qed.
+Print Assumptions C02_eps_default_instance.
+
+(* the two tolerances must agree: neighbour tolerance 0 with a 1e-5 bin width merges two distinct images *)
+Theorem C02_mismatched_tolerances_merge :
+  let G := (I3, v0) :: (M3 (-1) 0 0 0 (-1) 0 0 0 (-1), v0) :: nil in
+  let D := 12 * 2 ^ 22 in let off := V3 98400 0 0 in let x := V3 (D - 98400 + 12) 0 (D / 2) in
+  snd (expand_eps_t (Tol 0 1 eps_b_num eps_b_den) D G off x) = 1%nat /\
+  snd (expand_eps_t (tol_of (Some (0, 1))) D G off x) = 2%nat /\
+  snd (expand_exact D G off x) = 2%nat.
+Proof. exact mismatched_tolerances_merge. Qed.
+Print Assumptions C02_mismatched_tolerances_merge.
